@@ -622,3 +622,12 @@ def run_all(ctx):
     F = ctx.facts("A")
     for name in ("dictgen-bin", "compile-bin", "map-bin", "reorder-bin"):
         run_crate(ctx, F.crate(name))
+
+
+def op_kind_fn(crate, E, path, spec=None):
+    """(fa, op_kind, place_kind) for one function, without recording obligations."""
+    spec = spec or KindSpec()
+    ka = KindAnalysis(None, crate, spec, E)
+    ka._pending = []
+    fa, kinds = ka.analyse(crate.fn(path))
+    return fa, ka._op_kind, ka._place_kind, spec
